@@ -829,10 +829,13 @@ class Explorer(object):
             cst.trace = []
             paths = self.explore(callee, env=None, state=cst, depth=depth + 1)
             conts = []
+            dead = 0
             for p in paths:
                 if p.end not in ('ret',):
-                    if p.end == 'cut':
-                        continue
+                    if p.end == 'unreachable':
+                        # the callee ends the process here (abort(), a failed assertion): so does the caller's path
+                        out.append(p)
+                        dead += 1
                     continue
                 s2 = State()
                 s2.env = dict(saved_env)
@@ -853,7 +856,7 @@ class Explorer(object):
                 if ins.res:
                     s2.env[ins.res] = p.retval if p.retval is not None else ('undef',)
                 conts.append(s2)
-            if not conts:
+            if not conts and not dead:
                 raise AnalysisIncomplete('inlined %s has no returning path' % name)
             for s2 in conts:
                 work.append((s2, lbl, i + 1))
